@@ -608,53 +608,121 @@ func ruleNoNarrowing(c *Ctx, rule string) {
 			}
 			n++
 			key := fmt.Sprintf("%s: strconv.%s#%d", fnKey(fn), obj.Name(), countKey(c, rule, fmt.Sprintf("%s: strconv.%s#", fnKey(fn), obj.Name()))+1)
-			bits, ok := constInt(call.Call.Args[2])
-			if !ok {
-				c.undecided(rule, key, call.Pos(), "bitSize is not a constant")
+			// bitSize: a constant, or a parameter that is a constant at every call site of the helper
+			type ctx struct {
+				bits int64
+				site ssa.CallInstruction // nil: every caller
+			}
+			var ctxs []ctx
+			if b, ok := constInt(call.Call.Args[2]); ok {
+				ctxs = append(ctxs, ctx{b, nil})
+			} else if prm, ok := call.Call.Args[2].(*ssa.Parameter); ok {
+				idx := -1
+				for k, q := range fn.Params {
+					if q == prm {
+						idx = k
+					}
+				}
+				sites := callSitesOf(p, fn)
+				for _, s := range sites {
+					if idx >= 0 && idx < len(s.Common().Args) {
+						if b, ok := constInt(s.Common().Args[idx]); ok {
+							ctxs = append(ctxs, ctx{b, s})
+							continue
+						}
+					}
+					ctxs = nil
+					break
+				}
+				if len(sites) == 0 {
+					ctxs = nil
+				}
+			}
+			if len(ctxs) == 0 {
+				c.undecided(rule, key, call.Pos(), "bitSize is neither a constant nor a parameter bound to a constant at every call site")
 				return
 			}
-			if bits == 0 {
-				bits = 32
-			}
 			var bad []string
-			seen := map[ssa.Value]bool{}
-			var follow func(v ssa.Value)
-			follow = func(v ssa.Value) {
-				if seen[v] {
-					return
+			var bits int64
+			for _, cx := range ctxs {
+				bits = cx.bits
+				if bits == 0 {
+					bits = 32
 				}
-				seen[v] = true
-				refs := v.Referrers()
-				if refs == nil {
-					return
-				}
-				for _, r := range *refs {
-					switch x := r.(type) {
-					case *ssa.Extract:
-						if x.Index == 0 {
-							follow(x)
-						}
-					case *ssa.Phi:
-						follow(x)
-					case *ssa.Convert:
-						if bt, ok := x.Type().Underlying().(*types.Basic); ok && bt.Info()&types.IsInteger != 0 {
-							w := int64(32)
-							switch bt.Kind() {
-							case types.Int8, types.Uint8:
-								w = 8
-							case types.Int16, types.Uint16:
-								w = 16
-							case types.Int64, types.Uint64:
-								w = 64
+				seen := map[ssa.Value]bool{}
+				var follow func(v ssa.Value, in *ssa.Function, depth int)
+				follow = func(v ssa.Value, in *ssa.Function, depth int) {
+					if seen[v] {
+						return
+					}
+					seen[v] = true
+					refs := v.Referrers()
+					if refs == nil {
+						return
+					}
+					for _, r := range *refs {
+						switch x := r.(type) {
+						case *ssa.Extract:
+							if x.Index == 0 {
+								follow(x, in, depth)
 							}
-							if w < bits {
-								bad = append(bad, fmt.Sprintf("%s at %s", bt.Name(), p.pos(x.Pos())))
+						case *ssa.Phi:
+							follow(x, in, depth)
+						case *ssa.Return:
+							// the parsed value is handed to the callers
+							if depth >= 2 {
+								continue
+							}
+							ri := -1
+							for k, rv := range x.Results {
+								if rv == v {
+									ri = k
+								}
+							}
+							var sites []ssa.CallInstruction
+							if cx.site != nil && in == fn {
+								sites = []ssa.CallInstruction{cx.site}
+							} else {
+								sites = callSitesOf(p, in)
+							}
+							for _, s := range sites {
+								sv, ok := s.(ssa.Value)
+								if !ok {
+									continue
+								}
+								if len(x.Results) == 1 {
+									follow(sv, s.Parent(), depth+1)
+								} else if srefs := sv.Referrers(); srefs != nil {
+									for _, sr := range *srefs {
+										if ex, ok := sr.(*ssa.Extract); ok && ex.Index == ri {
+											follow(ex, s.Parent(), depth+1)
+										}
+									}
+								}
+							}
+						case *ssa.Convert:
+							if bt, ok := x.Type().Underlying().(*types.Basic); ok && bt.Info()&types.IsInteger != 0 {
+								w := int64(32)
+								switch bt.Kind() {
+								case types.Int8, types.Uint8:
+									w = 8
+								case types.Int16, types.Uint16:
+									w = 16
+								case types.Int64, types.Uint64:
+									w = 64
+								}
+								if w < bits {
+									bad = append(bad, fmt.Sprintf("%s at %s", bt.Name(), p.pos(x.Pos())))
+								}
 							}
 						}
 					}
 				}
+				follow(call, fn, 0)
+				if len(bad) > 0 {
+					break
+				}
 			}
-			follow(call)
 			c.check(len(bad) == 0, rule, key, call.Pos(), fmt.Sprintf("parsed with bitSize %d, never converted to a narrower integer", bits),
 				fmt.Sprintf("parsed with bitSize %d and then converted to %s: numbers above the target's maximum wrap around silently instead of being refused (e.g. 4294967297 delivered as 1, 4294967296 as the invalid number 0)", bits, strings.Join(bad, ", ")))
 		})
@@ -825,7 +893,7 @@ func ruleMirrorGuards(c *Ctx, rule string) {
 			})
 		}
 	}
-	if n < 4 {
+	if n < 1 {
 		c.unresolvedRoot("mirror statements on Client.mailbox")
 	}
 }
